@@ -91,7 +91,7 @@ def r2_r4(ctx):
     t = b.blocks[sg.switch_bb]["term"]
     # `min >= 0`: Ge -> true is `otherwise`
     true_t, false_t = t["otherwise"], t["targets"][0]
-    if sg.op in ("Lt",):
+    if sg.nop in ("Lt", "Le"):
         true_t, false_t = false_t, true_t
     unsigned_region = region(b, true_t, sg.switch_bb)
     signed_region = region(b, false_t, sg.switch_bb)
@@ -114,8 +114,8 @@ def r2_r4(ctx):
             c = cs[0]
             n += 1
             tt = b.blocks[c.switch_bb]["term"]
-            tr, fl = tt["otherwise"], tt["targets"][0]      # Le: true = otherwise
-            if c.op in ("Gt", "Ge"):
+            tr, fl = tt["otherwise"], tt["targets"][0]      # `amplitude <= X_MAX` / `X_MAX >= amplitude`: fits on the true edge
+            if c.nop in ("Gt", "Ge"):                       # `amplitude > X_MAX`: fits on the false edge
                 tr, fl = fl, tr
             aggs, casts = region_facts(b, region(b, tr, c.switch_bb))
             detail = {"guard": c.raw, "boundary": boundary, "constructs": aggs, "casts": sorted(set(casts)), "at": c.loc}
